@@ -42,7 +42,7 @@ def calls_named_deep(P, fns, name):
 
 
 def fn_of(P, v):
-    return P.fn(str(v[1]).split("#")[0])
+    return P.fn(str(v[1])) or P.fn(str(v[1]).rsplit("#", 1)[0])
 
 
 def run(ctx):
